@@ -41,7 +41,8 @@ MkEnv(r) ==
          tok |-> voc.tok, eos |-> voc.eos, order |-> order,
          alpha |-> UNION {SeqToSetI(voc.tok[t + 1]) : t \in text},
          canon |-> voc.canon = 1, maxlen |-> CHOOSE m \in lens : \A x \in lens : x <= m,
-         sw |-> [clearOnRollback |-> TRUE, keyRow |-> TRUE, keyPending |-> TRUE, resetLastForce |-> TRUE, vendMax |-> FALSE],
+         sw |-> [clearOnRollback |-> TRUE, keyRow |-> TRUE, keyPending |-> TRUE, resetLastForce |-> TRUE, vendMax |-> FALSE,
+                 clearFFOnRollback |-> TRUE],
          usable |-> Reduced(P, <<r.lex.start>>) /\ \A i \in DOMAIN L : L[i].rx \in L[i].live /\ ~R!Nullable(L[i].rx)]
 
 TInit == l = 1 /\ env = <<>> /\ s = <<>>
